@@ -275,6 +275,28 @@ fn history(ctx: &mut Ctx, c: &Case, p: &mut Prng) {
         }
         (o, false) => ctx.violation(&format!("exchange_4:tampered:{}", o.class()), wit(c)),
     }
+    // replays on the same objects after an honest run: an altered message must still be refused (nothing computed for the
+    // genuine messages may stand in for the altered ones)
+    if c.subset == 0 {
+        let other = tamper_point(&rb_ref, Kind::OtherPoint, p);
+        let other_lib = lib_point(&other, p, false);
+        let would_accept = matches!(r2::exchange(&c.da, &c.ra, &ra_ref, &pb, &other, &za, &zb, true, c.klen), Some(r) if r.s_b == sb_lib);
+        ctx.eval();
+        ctx.class("replay_step3_with_altered_RB_after_honest_run");
+        match guard(|| a.exchange_3(&other_lib, sb_lib)) {
+            Outcome::Ret(Ok(_)) if !would_accept => ctx.violation("exchange_3:replay-with-altered-R_B-after-honest-run:accepted", wit(c)),
+            Outcome::Ret(_) => {}
+            o => ctx.violation(&format!("exchange_3:replay-with-altered-R_B-after-honest-run:{}", o.class()), wit(c)),
+        }
+        let bad = tamper_hash(&sa_lib, p, Kind::BitFlipHash);
+        ctx.eval();
+        ctx.class("replay_step4_with_altered_SA_after_honest_run");
+        match guard(|| b.exchange_4(bad, &ra_b_lib)) {
+            Outcome::Ret(Ok(true)) => ctx.violation("exchange_4:replay-with-altered-S_A-after-honest-run:accepted", wit(c)),
+            Outcome::Ret(_) => {}
+            o => ctx.violation(&format!("exchange_4:replay-with-altered-S_A-after-honest-run:{}", o.class()), wit(c)),
+        }
+    }
     let _ = cur;
 }
 
@@ -538,6 +560,16 @@ pub fn run(ctx: &mut Ctx) {
         if i % 50 == 29 || i % 50 == 41 {
             case.idb = case.ida.clone();
             ctx.class("same_id_both_parties");
+        }
+        // opposite static keys dB = n - dA (P_B = -P_A shares x with P_A), with the same identity
+        if i % 50 == 3 || i % 50 == 37 {
+            let dn = &c.n - &case.da;
+            if !case.da.is_zero() && dn < &c.n - 1u32 {
+                case.db = dn;
+                case.idb = case.ida.clone();
+                case.subset = 0;
+                ctx.class("opposite_static_keys_same_id");
+            }
         }
         // both parties happen to draw the same ephemeral scalar (R_B = R_A): an honest run like any other
         if i % 50 == 21 {
